@@ -468,8 +468,7 @@ class Gen:
 		return f'({self._expr(d)})'
 
 	def chainable(self, d: int) -> str:
-		"""name / call / attribute / subscript chains. Subscript receivers are names, calls, attributes and subscripts only:
-		`Indexer.receiver` refuses literals and parenthesised receivers (defect candidate, replayed from the corpus)."""
+		"""name / call / attribute / subscript chains, also on literal and parenthesised receivers"""
 		rng = self.rng
 		r = rng.random()
 		if d <= 0 or r < 0.3:
@@ -479,7 +478,8 @@ class Gen:
 		if r < 0.78:
 			base = self.chainable(d - 1) if rng.random() < 0.7 else rng.choice([f'({self._expr(d - 1)})', "'s'", '[]', self.name()])
 			return f'{base}.{self.name()}'
-		return f'{self.chainable(d - 1)}[{self.slices(d - 1)}]'
+		base = self.chainable(d - 1) if rng.random() < 0.75 else rng.choice([f'({self._expr(d - 1)})', "'s'", '[a, b]', '{a: b}', '(a, b)', '"t"'])
+		return f'{base}[{self.slices(d - 1)}]'
 
 	def primary_base(self, d: int) -> str:
 		return self.chainable(d)
@@ -648,7 +648,16 @@ class Gen:
 				out += self.block(d - 1, ctx, ind + 1)
 			return out
 		if r < 0.7:
-			items = ', '.join(f'{self.call(2)}' + (f' as {self.fresh("w")}' if rng.random() < 0.6 else '') for _ in range(rng.choice([1, 1, 2])))
+			def with_item() -> str:
+				# calls, but also bare identifiers / attributes (`with lock:`) and other expressions
+				r2 = rng.random()
+				ce = self.call(2) if r2 < 0.5 else self.name() if r2 < 0.75 else f'{self.name()}.{self.name()}' if r2 < 0.9 else self.expr(1)
+				if ce.startswith('('):
+					# `with (a, b):` is CPython's parenthesised item list (3.9+) but one tuple expression for grammar.lark:
+					# reported as a divergence, kept out of the generated language
+					ce = self.name()
+				return ce + (f' as {self.fresh("w")}' if rng.random() < 0.5 else '')
+			items = ', '.join(with_item() for _ in range(rng.choice([1, 1, 2])))
 			out.append(self.line(ind, f'with {items}:'))
 			return out + self.block(d - 1, ctx, ind + 1)
 		if r < 0.9:
@@ -658,11 +667,12 @@ class Gen:
 	def decorators(self, ind: int, first: str | None) -> list[str]:
 		rng = self.rng
 		out = []
-		if first:
-			out.append(self.line(ind, f'@{first}'))
 		for _ in range(rng.choice([0, 0, 0, 1, 2])):
 			dn = rng.choice(['deco', 'pkg.wrap', 'override', 'abstractmethod'])
 			out.append(self.line(ind, f'@{dn}' + (f'({self.items(1)})' if rng.random() < 0.3 else '')))
+		if first:
+			# `@classmethod` / `@staticmethod` at any position of the decorator list
+			out.insert(rng.randint(0, len(out)), self.line(ind, f'@{first}'))
 		return out
 
 	def params(self, first: str | None) -> str:
@@ -699,6 +709,15 @@ class Gen:
 				name, first = '__init__', 'self'
 			else:
 				first = 'self'
+		else:
+			# outside class bodies the names that used to steer the classification must not matter
+			r = rng.random()
+			if r < 0.08:
+				first = 'self'
+			elif r < 0.12:
+				first = 'cls'
+			if rng.random() < 0.04:
+				name = '__init__'
 		out += self.decorators(ind, deco_first)
 		ret = 'None' if name == '__init__' else self.type_expr()
 		out.append(self.line(ind, f'def {name}({self.params(first)}) -> {ret}:'))
@@ -1510,6 +1529,9 @@ def search_canon(ctx: Ctx) -> SearchResult:
 		if status == 'ok' and len(res.samples) < 2:
 			res.samples.append({'origin': name, 'source': src[:300]})
 	res.findings.extend(corpus_findings)
+	# witness of theorem classify_func_counterexample (naming convention `self`; recorded, not a finding — see STATEMENTS)
+	st_conv, _, det_conv = check_source(app, 'class A:\n\tdef f(this) -> None:\n\t\tpass\n')
+	hist[f'convention-witness(first parameter not named self):{st_conv}'] += 1
 	res.distinct = len(distinct)
 	res.histogram = {**dict(hist), **{f'construct:{k}': v for k, v in sorted(constructs.items())}}
 	judged = hist.get('ok', 0) + hist.get('diff', 0) + hist.get('raise', 0)
@@ -1532,9 +1554,11 @@ STATEMENTS = {
 	'classify_owners_modelled': 'every match_feature reachable from the generated resolver table is modelled',
 	'classify_rows': 'candidate orders of function_def / name / var / class_def / getattr in the generated table are the ones the decision functions hard-code',
 	'classify_function_def / classify_name / classify_var': 'first-match over the generated row computes funcClass / nameClass / varClass of the extracted features',
-	'classify_classMethod … classify_func_total': 'iff-characterisation of each function kind (decision logic), totality',
-	'classify_func_partial': 'under the coding conventions (Conventional) tranp\'s kind = the kind Python\'s scoping dictates (pyFuncClass)',
-	'classify_*_counterexample': 'without the conventions the statement is false: module-level __init__ → Constructor; @x above @classmethod → not ClassMethod; closure with first parameter self → Method',
+	'classify_classMethod … classify_func_total': 'iff-characterisation of each function kind of the repaired code (e2c3e47), totality',
+	'classify_core / classify_func_partial': 'on every real function_def path, tranp\'s kind = the kind Python\'s scoping dictates (pyFuncClass) given the 3 remaining conventions: @classmethod only in classes, class functions directly in the class body, self first exactly on instance methods',
+	'classify_constructor_agrees / classify_classMethod_agrees / classify_method_sound': 'the three formerly false statements, each with exactly the hypothesis it still needs (one / one / none)',
+	'classify_former_witnesses': 'the three old counter-example witnesses are classified as Python does',
+	'classify_func_counterexample': 'the unconditional statement is still false where match_feature goes by the name self (class function whose first parameter is not called self): dialect convention, not filed as a defect',
 	'classify_name_param / classify_var_reference': 'parameter names are declarations exactly below typedparam; a var is a reference exactly when no DeclableMatcher pattern holds',
 }
 
